@@ -179,3 +179,128 @@ class TestPacked(Contract):
             return [Implies(i < L(ps), PS(i + 1) == PS(i) + nth(ps, i)), RANK(i + 1) == RANK(i) + ite(nth(dd, i), 1, 0)]
 
         return {"py7zr:SevenZipFile.test#loop0": LoopSpec("for-i-d", inv, target="(i, d) in enumerate(digestdefined)", unfold_init=init, unfold_step=step)}
+
+
+from contracts.extract import attr, item  # noqa: E402
+
+
+def attr_now(c, o, name):
+    """current value of attribute `name` of opaque object o (consults the engine's write log)"""
+    from pyvc import builtins_model as B
+
+    return B.get_attr(c.eng, o, name, None)
+
+
+@contract
+class Reset(Contract):
+    """after reset() the read session is in the state of a freshly opened archive: the file is positioned at the start
+    of the packed streams, a new worker without registered targets is installed and NO folder keeps a decoder"""
+
+    target = PY + "SevenZipFile.reset"
+    props = ("C12",)
+    abstract = True
+    stable_attrs = ("header", "main_streams", "unpackinfo", "folders", "numfolders", "fp", "afterheader", "files", "mp", "mode")
+    noraise = ("Worker", "seek")
+    frame_preserving = ("seek", "Worker")
+    assumptions = ("Worker(...) construction and fp.seek do not touch folder objects",)
+
+    def setup(self, c):
+        me = c.opq("self")
+        c.assume(eq(attr(me, "mode"), "r"))
+        return {"self_": me}
+
+    def raises(self):
+        return [RaiseSpec("Exception")]
+
+    def ensures(self, c, old, result, self_):
+        eng = c.eng
+        if eng.ctx_mode == "assume":
+            return []
+        folders = attr(attr(attr(attr(self_, "header"), "main_streams"), "unpackinfo"), "folders")
+        n = SInt(V.uf("len", V.vsort(), z3.IntSort(), z3.IntSort())(folders.t, z3.IntVal(0)))
+        seeks = [e for e in eng.trace if e.kind == "call" and e.name == "seek"]
+        workers = [e for e in eng.trace if e.kind == "call" and e.name.endswith("Worker")]
+        sets = [e for e in eng.trace if e.kind == "setattr" and e.name == "worker"]
+        ms = attr(attr(self_, "header"), "main_streams")
+        has_folders = And(Not(eq(ms, None)), SBool(V.uf("cmp_Gt", V.vsort(), V.vsort(), z3.BoolSort())(attr(attr(ms, "unpackinfo"), "numfolders").t, V.box(0).t)))
+        return [
+            ("repositioned-at-start-of-packed-streams", bool(seeks) and And(eq(seeks[-1].recv, attr(self_, "fp")), eq(seeks[-1].args[0], attr(self_, "afterheader")))),
+            ("new-worker-installed", bool(workers and sets) and eq(sets[-1].args[0], workers[-1].result)),
+            ("no-folder-keeps-a-decoder", ForAll(lambda k: eq(attr_now(c, item(folders, k), "decompressor"), None), guard=lambda k: And(has_folders, k >= 0, k < n), n=n)),
+        ]
+
+    def loops(self):
+        def inv(c, Lp):
+            me = c.bound["self_"]
+            folders = attr(attr(attr(attr(me, "header"), "main_streams"), "unpackinfo"), "folders")
+            i = Lp.i
+            return [("cleared-so-far", ForAll(lambda k: eq(attr_now(c, item(folders, k), "decompressor"), None), guard=lambda k: And(k >= 0, k < i), n=i))]
+
+        return {"py7zr:SevenZipFile.reset#loop0": LoopSpec("for-i-folder", inv)  # the invariant mentions no local variable: no text anchor needed}
+
+
+@contract
+class TestZip(Contract):
+    """testzip() is right at any point of a session: it starts from fresh decoders, positions the file, registers no
+    target for any member, decodes every member (skip_notarget=False) and only uses the parallel path for archives
+    opened by name"""
+
+    target = PY + "SevenZipFile.testzip"
+    props = ("C12", "C04")
+    abstract = True
+    stable_attrs = ("header", "main_streams", "unpackinfo", "folders", "numfolders", "fp", "afterheader", "files", "mp", "password_protected", "_filePassed", "id", "args")
+    noraise = ("Worker", "seek", "register_filelike")
+    frame_preserving = ("seek", "Worker", "register_filelike")
+
+    def setup(self, c):
+        return {"self_": c.opq("self")}
+
+    def raises(self):
+        return [RaiseSpec("Exception")]
+
+    def ensures(self, c, old, result, self_):
+        eng = c.eng
+        if eng.ctx_mode == "assume":
+            return []
+        ex = [e for e in eng.trace if e.kind == "call" and e.name == "extract"]
+        out = [("decodes-through-the-worker-once", len(ex) == 1)]
+        if len(ex) == 1:
+            e = ex[0]
+            par = e.kwargs.get("parallel")
+            out.append(("every-member-is-decoded", e.kwargs.get("skip_notarget") is False))
+            out.append(("parallel-only-for-named-unprotected-archives", Implies(par, And(Not(truthy(attr(self_, "password_protected"))), Not(truthy(attr(self_, "_filePassed"))))) if par is not None else False))
+            out.append(("no-output-path", e.args[1] is None))
+        return out
+
+    def hooks(self):
+        def on_extract(c, ev):
+            me = c.bound["self_"]
+            folders = attr(attr(attr(attr(me, "header"), "main_streams"), "unpackinfo"), "folders")
+            n = SInt(V.uf("len", V.vsort(), z3.IntSort(), z3.IntSort())(folders.t, z3.IntVal(0)))
+            ms = attr(attr(me, "header"), "main_streams")
+            has_folders = And(Not(eq(ms, None)), SBool(V.uf("cmp_Gt", V.vsort(), V.vsort(), z3.BoolSort())(attr(attr(ms, "unpackinfo"), "numfolders").t, V.box(0).t)))
+            c.eng.prove_item("assert", "decoding-starts-from-fresh-decoders@extract", ForAll(lambda k: eq(attr_now(c, item(folders, k), "decompressor"), None), guard=lambda k: And(has_folders, k >= 0, k < n), n=n), props=("C12",), assume_after=False)
+            seeks = [e for e in c.eng.trace if e.kind == "call" and e.name == "seek"]
+            c.oblig("assert", "file-positioned-at-start-of-packed-streams@extract", bool(seeks) and eq(seeks[-1].args[0], attr(me, "afterheader")), props=("C12",))
+
+        return {("call", "extract"): [on_extract]}
+
+    def loops(self):
+        def inv0(c, Lp):
+            me = c.bound["self_"]
+            folders = attr(attr(attr(attr(me, "header"), "main_streams"), "unpackinfo"), "folders")
+            i = Lp.i
+            return [("fresh-decoders-so-far", ForAll(lambda k: eq(attr_now(c, item(folders, k), "decompressor"), None), guard=lambda k: And(k >= 0, k < i), n=i))]
+
+        def inv1(c, Lp):
+            return []
+
+        def asserts1(c, Lp):
+            eng = c.eng
+            regs = [e for e in eng.trace[Lp.trace_mark:] if e.kind == "call" and e.name == "register_filelike"]
+            return [("member-registered-without-target", len(regs) == 1 and regs[0].args[1] is None)]
+
+        return {
+            "py7zr:SevenZipFile.testzip#loop0": LoopSpec("for-folder", inv0),
+            "py7zr:SevenZipFile.testzip#loop1": LoopSpec("for-f", inv1, target="f in self.files", asserts=asserts1),
+        }
